@@ -2,26 +2,26 @@
 use std::panic;
 use std::time::{Duration, Instant};
 
-pub struct Rng(pub u64);
+pub struct Rng(pub std::cell::Cell<u64>);
 impl Rng {
     pub fn new(seed: u64) -> Self {
-        Rng(seed.wrapping_mul(0x9E3779B97F4A7C15) ^ 0xD1B54A32D192ED03)
+        Rng(std::cell::Cell::new(seed.wrapping_mul(0x9E3779B97F4A7C15) ^ 0xD1B54A32D192ED03))
     }
-    pub fn next(&mut self) -> u64 {
-        let mut x = self.0;
+    pub fn next(&self) -> u64 {
+        let mut x = self.0.get();
         x ^= x << 13;
         x ^= x >> 7;
         x ^= x << 17;
-        self.0 = x;
+        self.0.set(x);
         x
     }
-    pub fn below(&mut self, n: u64) -> u64 {
+    pub fn below(&self, n: u64) -> u64 {
         if n == 0 { 0 } else { self.next() % n }
     }
-    pub fn pick<'a, T>(&mut self, xs: &'a [T]) -> &'a T {
+    pub fn pick<'a, T>(&self, xs: &'a [T]) -> &'a T {
         &xs[self.below(xs.len() as u64) as usize]
     }
-    pub fn bytes(&mut self, n: usize, alphabet: &[u8]) -> Vec<u8> {
+    pub fn bytes(&self, n: usize, alphabet: &[u8]) -> Vec<u8> {
         (0..n).map(|_| *self.pick(alphabet)).collect()
     }
 }
